@@ -334,6 +334,28 @@ def run_case(case):
                     'dispatching was disabled', [], log[:3])
         index = 0
         out = enable(index)
+        if out == 'raised' and d.dispatch_enabled and not res.divs:
+            # still enabled with a remainder pending: an event dispatched
+            # now is an ordinary immediate dispatch (C03) - it may not be
+            # parked behind the remainder
+            before = len(log)
+            tok = len(tokens)
+            name = next((n for n in case['events'] if n not in 'z+'), 'a')
+            d.dispatch(name, new_token(name))
+            res.stats['immediate_dispatch_after_raise'] += 1
+            got_now = {e[1] for e in log[before:] if e[2] == tok}
+            changed_h = {c[1] for c in changes}
+            for h in range(len(handlers)):
+                if h in changed_h or name not in listening[h]:
+                    continue
+                if h not in got_now:
+                    res.div(index, 'immediate-not-delivered', 'dispatching is '
+                            'enabled (a release was interrupted by a raising '
+                            'callback) but a dispatched event was not '
+                            f'delivered at once to handler {h}',
+                            'delivered immediately', 'not delivered',
+                            injected=list(injected))
+                    break
         if out == 'raised' and case.get('direct') and not res.divs:
             # enabling again WITHOUT disabling first (SimpleLoop.switch does
             # exactly this after catching SwitchWorld): the remainder must
@@ -369,6 +391,8 @@ def run_case(case):
         res.div(-1, 'script-raised', f'{type(ex).__name__}: {ex}',
                 'no exception', repr(ex))
 
+    if not res.divs and case['world']:
+        direct_path_nested_disable(desper, d, res)
     if not res.divs:
         judge(case, res, log, tokens, changes, faulting_tokens, outcomes,
               listening, attach_owner, spare.idx)
@@ -380,6 +404,42 @@ def run_case(case):
     res.sample = {'deliveries': [list(x[1:4]) for x in log][:12],
                   'outcomes': outcomes, 'injected': injected}
     return res
+
+
+def direct_path_nested_disable(desper, w, res):
+    """While dispatching is ENABLED lifecycle callbacks are called directly;
+    if one of them disables dispatching, the callbacks that follow in the
+    same operation must be deferred like any other event."""
+    calls = []
+
+    def on_add(self, entity, world):
+        calls.append((self.tag, world.dispatch_enabled))
+        if self.tag == 'first':
+            world.dispatch_enabled = False
+
+    cls_a = desper.event_handler('on_add')(type('DA', (), {'on_add': on_add}))
+    cls_b = desper.event_handler('on_add')(type('DB', (), {'on_add': on_add}))
+    a, b = cls_a(), cls_b()
+    a.tag, b.tag = 'first', 'second'
+    try:
+        w.dispatch_enabled = True
+        w.create_entity(a, b)
+        during = list(calls)
+        w.dispatch_enabled = True
+    except Exception as ex:
+        res.div(-1, 'script-raised', f'{type(ex).__name__}: {ex}',
+                'no exception', repr(ex))
+        return
+    res.stats['direct_path_nested_disable_checked'] += 1
+    if any(not enabled for _, enabled in calls):
+        res.div(-1, 'callback-while-disabled', 'create_entity called an '
+                'on_add directly although an earlier on_add of the same call '
+                'had disabled dispatching', 'deferred until enabled again',
+                [list(c) for c in during])
+    elif [t for t, _ in calls] != ['first', 'second']:
+        res.div(-1, 'event-lost', 'on_add of the second component of a '
+                'create_entity whose first on_add disabled dispatching',
+                ['first', 'second'], [t for t, _ in calls])
 
 
 def judge(case, res, log, tokens, changes, faulting_tokens, outcomes,
